@@ -7,7 +7,7 @@ import subprocess
 
 import common
 
-PROG = "inplace,grow,alter,alter,inplace,finalize"      # the second alter session fails (reference without definition)
+PROG = "inplace,grow,alter,alter,inplace,grow,finalize"      # the second alter session fails (reference without definition); the second growth follows the alterations
 
 
 def run_schedule(k, mode, wait_ms=60):
@@ -81,6 +81,9 @@ def explore(run, focus, thorough):
             if l.startswith("returned"):
                 seen_returned = True
                 versions.append(d.get("ver"))
+                # the boundary observation is itself an executor lock taken between two API calls
+                if d.get("ver") == "?" and focus == "C09":
+                    report("reader-sees-incomplete", last_hook, f"schedule park={k} {mode}: between two API calls an executor saw a buffer ({l}) that is not the committed contents of any completed commit/alter", payload)
                 if (d.get("ver") or "").isdigit():
                     last_returned = max(last_returned, int(d["ver"]))
             # ---- the properties, directly on the recorded events
